@@ -221,6 +221,81 @@ fn p0_position_advances_by_source_length() {
 }
 
 // ---------------------------------------------------------------------------
+// EP: option plumbing of the twelve entry points. A probe type whose `parse_in`
+// returns the options (and start position) the entry point configured the
+// `Parser` with is pushed through every provided method of the REAL `Parse`
+// trait: the entry points without an options argument must be strict, the
+// `_with` ones must hand over exactly the options they were given.
+
+pub struct Probe {
+	opts: Options,
+	position: usize,
+	first: Option<char>,
+}
+
+impl Parse for Probe {
+	fn parse_in<C, E>(parser: &mut Parser<C, E>, _context: Context) -> Result<Meta<Self, usize>, Error<E>>
+	where
+		C: Iterator<Item = Result<DecodedChar, E>>,
+	{
+		let i = parser.begin_fragment();
+		let first = parser.peek_char()?;
+		Ok(Meta(
+			Probe {
+				opts: parser.options,
+				position: parser.position,
+				first,
+			},
+			i,
+		))
+	}
+}
+
+#[cfg(kani)]
+#[kani::proof]
+#[kani::unwind(4)]
+fn ep_options_reach_the_parser_unchanged() {
+	let given = any_options();
+	let strict = Options::strict();
+	let b: [u8; 1] = [kani::any()];
+	kani::assume(b[0] < 0x80);
+	let s = unsafe { core::str::from_utf8_unchecked(&b) };
+	let chars = || b.iter().map(|x| *x as char);
+	let which: u8 = kani::any();
+	kani::assume(which < 12);
+	let (r, with): (Result<(Probe, crate::CodeMap), Error>, bool) = match which {
+		0 => (Probe::parse_str(s), false),
+		1 => (Probe::parse_str_with(s, given), true),
+		2 => (Probe::parse_infallible_utf8(chars()), false),
+		3 => (Probe::parse_utf8_infallible_with(chars(), given), true),
+		4 => (Probe::parse_utf8(chars().map(Ok::<char, Infallible>)), false),
+		5 => (Probe::parse_utf8_with(chars().map(Ok::<char, Infallible>), given), true),
+		6 => (Probe::parse_infallible(chars().map(DecodedChar::from_utf8)), false),
+		7 => (Probe::parse_infallible_with(chars().map(DecodedChar::from_utf8), given), true),
+		8 => (Probe::parse(chars().map(|c| Ok::<DecodedChar, Infallible>(DecodedChar::from_utf8(c)))), false),
+		9 => (Probe::parse_with(chars().map(|c| Ok::<DecodedChar, Infallible>(DecodedChar::from_utf8(c))), given), true),
+		10 => (Probe::parse_slice(&b), false),
+		_ => (Probe::parse_slice_with(&b, given), true),
+	};
+	match &r {
+		Ok((p, cm)) => {
+			if with {
+				assert!(p.opts == given, "C12:with-entry-points-obey-exactly-the-options-given");
+			} else {
+				assert!(p.opts == strict, "C12:entry-points-without-options-are-strict");
+			}
+			assert!(p.position == 0 && p.first == Some(b[0] as char), "C01:entry-points-start-at-the-first-character");
+			assert!(cm.len() == 1, "C05:entry-points-return-the-parser-code-map");
+		}
+		Err(_) => panic!("C01:entry-points-run-the-unit"),
+	}
+	assert!(!strict.accept_truncated_surrogate_pair && !strict.accept_invalid_codepoints && Options::default() == strict, "C12:default-options-are-strict");
+	kani::cover!(which == 11 && given.accept_invalid_codepoints);
+	kani::cover!(which == 6);
+	core::mem::forget(r);
+}
+
+// ---------------------------------------------------------------------------
 // L1: whitespace and follow sets
 
 #[cfg(kani)]
